@@ -382,7 +382,7 @@ fn known_probes(run: &mut PropRun) {
     let mut scratch = Stats::default();
     scratch.frozen = true;
     if findings::is_open(F_HYPHEN) {
-        let ast = RangeAst::single(Alt::Hyphen { lo: None, hi: Partial { v: false, comps: vec![n(10)], pre: vec![], build: vec![], hyphenless: false } });
+        let ast = RangeAst::single(Alt::Hyphen { lo: None, hi: Partial { v: false, comps: vec![n(10)], pre: vec![], build: vec![], hyphenless: false }, pad: (0, 0) });
         if check_ast(&ast, &[MVersion::new(0, 0, 2)], &mut scratch, true).is_err() {
             run.known_lines.push(format!("{}: ' - 10' parses to '<11.0.0-0' and admits 0.0.2; npm (and the crate's own grammar comment) read it as '>=10.0.0 <11.0.0-0'", F_HYPHEN));
         }
